@@ -118,8 +118,8 @@ def check_mdlt(sess, accum_kind):
                           f'position*2^31+accumulator==S_T[a0={c}]')
                 q.pc.pop()
         oblige_at(ex, q, tag, 'ensures', z3.And(acc >= 0, acc < M), 'accumulator-in-[0,2^31)')
-        d = q.ghost.get('mp_dps')
-        oblige_at(ex, q, tag, 'frame', d.z() == 30 if not d.conc() else d.t == 30, 'mp.dps==30-on-exit')
+        # (what mp.dps is left at on exit is not part of the property: a version that restores the caller's
+        #  precision is as good; only the precision in force at each mpmath operation is an obligation)
     if n_ret == 0:
         raise EngineError('move_dist_lt: no returning path')
     for ob in ctx.obligations:
